@@ -132,7 +132,7 @@ func makeBody(kind string, data []byte) io.Reader {
 	case "seekfail":
 		// a seekable upload that can be rewound once only: the second Seek (the second attempt's rewind) fails
 		return &failSeeker{Reader: strings.NewReader(string(data)), failFrom: 2}
-	case "stream":
+	case "stream", "stream0":
 		return plainStream{bytes.NewReader(data)}
 	case "empty":
 		return plainStream{bytes.NewReader(nil)}
@@ -343,6 +343,9 @@ func runHTTPScenario(t *testing.T, sc hScenario) (lines []M, problem string) {
 			if sc.BodyKind == "stream" || sc.BodyKind == "empty" {
 				req.ContentLength = -1
 			}
+			if sc.BodyKind == "stream0" {
+				req.ContentLength = 0 // unknown length, the way http.NewRequest leaves it
+			}
 		}
 		req.Header.Set("X-Orig", "h1")
 		req.Header.Set("Content-Type", "text/x-test")
@@ -524,6 +527,7 @@ func runGRPCScenario(t *testing.T, sc hScenario) (lines []M, problem string) {
 		replyArg := &struct{ B string }{}
 		n := 0
 		var lastErr error
+		var lastCode codes.Code
 		check := func(c context.Context, req any) M {
 			n++
 			prevRetryable := true
@@ -544,6 +548,11 @@ func runGRPCScenario(t *testing.T, sc hScenario) (lines []M, problem string) {
 			}
 			if c := codeOf(r); c != codes.OK {
 				lastErr = status.Error(c, "scripted")
+				lastCode = c
+				if n%2 == 0 {
+					// every other failing attempt: the status error arrives wrapped (another interceptor added context with %w)
+					lastErr = fmt.Errorf("interceptor: %w", lastErr)
+				}
 				return lastErr
 			}
 			lastErr = nil
@@ -577,7 +586,7 @@ func runGRPCScenario(t *testing.T, sc hScenario) (lines []M, problem string) {
 		time.Sleep(10 * time.Second)
 		synctest.Wait()
 		live, _ := liveLibraryGoroutines()
-		lastRetryable := lastErr != nil && retryable(status.Code(lastErr))
+		lastRetryable := lastErr != nil && retryable(lastCode)
 		lines = append(lines, M{"ev": "GFinal", "attempts": n, "sameReply": sameReply, "sameError": errors.Is(gotErr, lastErr) || gotErr == lastErr,
 			"lastRetryable": lastRetryable, "live": live})
 	})
